@@ -35,6 +35,19 @@ type c14Case struct {
 	// Salt2: when non-empty, the second attempt of a retry is served with this salt (same iteration
 	// count): e.g. the same account on a backup relay, or a re-salted account.
 	Salt2 []byte `json:"salt2,omitempty"`
+	// PrevPass: before the judged attempt, the same user completes a genuine exchange with this OTHER
+	// password against the same salt and iteration count (a password that was rotated since).
+	PrevPass string `json:"prev_pass,omitempty"`
+}
+
+// c14NormPair reports whether (raw, normalised) is one of the hand-verified normalisation pairs.
+func c14NormPair(raw, norm string) bool {
+	for _, p := range [][2]string{{"u\u0308ber", "\u00fcber"}, {"caf\u0065\u0301", "caf\u00e9"}, {"A\u030angstrom", "\u00c5ngstrom"}, {"pass\u00a0word", "pass word"}, {"pass\u3000word", "pass word"}, {"\u2126hm", "\u03a9hm"}, {"n\u0303", "\u00f1"}} {
+		if p[0] == raw && p[1] == norm {
+			return true
+		}
+	}
+	return false
 }
 
 func precisForbidden(s string) bool {
@@ -104,10 +117,20 @@ func c14Run(c c14Case) []*core.Violation {
 	d := &refsmtp.Dialer{Srv: srv}
 	opts := cfg.options(d)
 	var custom smtp.Auth
-	if c.Retry && strings.HasPrefix(wire, "SCRAM") && !strings.HasSuffix(wire, "PLUS") {
-		if strings.Contains(wire, "256") {
+	if c.Retry && !strings.HasSuffix(wire, "PLUS") && (c.TLS != "none" || (wire != "PLAIN" && wire != "LOGIN") || strings.HasSuffix(c.Mech, "-NOENC")) {
+		// the same smtp.Auth value is used for every dial (WithSMTPAuthCustom)
+		switch {
+		case wire == "PLAIN":
+			custom = smtp.PlainAuth("", c.ClientUser, c.ClientPass, refHost, true)
+		case wire == "LOGIN":
+			custom = smtp.LoginAuth(c.ClientUser, c.ClientPass, refHost, true)
+		case wire == "CRAM-MD5":
+			custom = smtp.CRAMMD5Auth(c.ClientUser, c.ClientPass)
+		case wire == "XOAUTH2":
+			custom = smtp.XOAuth2Auth(c.ClientUser, c.ClientPass)
+		case strings.Contains(wire, "256"):
 			custom = smtp.ScramSHA256Auth(c.ClientUser, c.ClientPass)
-		} else {
+		default:
 			custom = smtp.ScramSHA1Auth(c.ClientUser, c.ClientPass)
 		}
 		opts = append(opts, mail.WithSMTPAuthCustom(custom))
@@ -118,11 +141,40 @@ func c14Run(c c14Case) []*core.Violation {
 	if err != nil {
 		return []*core.Violation{core.V("HARNESS-newclient", "%v", err)}
 	}
+	if c.PrevPass != "" && strings.HasPrefix(wire, "SCRAM") && !sp.Plus {
+		// the rotated-password history: same user, salt and iteration count, other password
+		pres := &refsasl.Result{}
+		psp := sp
+		psp.Hash = "SHA-256"
+		if strings.HasPrefix(wire, "SCRAM-SHA-1") {
+			psp.Hash = "SHA-1"
+		}
+		psrv := refsmtp.NewServer(refsmtp.Script{Caps: caps, NoGreetProbe: true})
+		psrv.Auth = refsasl.Mux(map[string]refsmtp.AuthHandler{wire: refsasl.Scram(refsasl.Account{User: c.User, Pass: c.PrevPass}, psp, pres)})
+		psrv.TLS = serverTLS(maxv)
+		pd := &refsmtp.Dialer{Srv: psrv}
+		pcfg := cfg
+		popts := append(pcfg.options(pd), mail.WithSMTPAuth(mail.SMTPAuthType(c.Mech)), mail.WithUsername(c.User), mail.WithPassword(c.PrevPass))
+		if pcl, perr := mail.NewClient(refHost, popts...); perr == nil {
+			pr := watchdog(20*time.Second, pd, func() error {
+				if e := pcl.DialWithContext(context.Background()); e != nil {
+					return e
+				}
+				return pcl.Close()
+			})
+			pd.Shutdown()
+			if pr.Err != nil || !pres.Accepted {
+				if !precisForbidden(c.PrevPass) && !precisForbidden(c.User) {
+					return []*core.Violation{core.V("right-credentials-rejected", "preparatory exchange with the previous password %q failed: %v (verifier: %s)", c.PrevPass, pr.Err, pres.Reason)}
+				}
+			}
+		}
+	}
 	attempts := 1
 	if c.Retry {
 		attempts = 2
 	}
-	right := c.User == c.ClientUser && c.Pass == c.ClientPass
+	right := c.User == c.ClientUser && (c.Pass == c.ClientPass || c14NormPair(c.ClientPass, c.Pass))
 	var vs []*core.Violation
 	localRefusals := 0
 	for a := 0; a < attempts; a++ {
@@ -261,6 +313,13 @@ func c14Gen(t *rapid.T) c14Case {
 	case 2: // near misses
 		c.ClientPass = c.Pass + rapid.SampledFrom([]string{" ", "x", ",", "="}).Draw(t, "suffix")
 	}
+	if strings.HasPrefix(c.Mech, "SCRAM") && rapid.IntRange(0, 5).Draw(t, "normpair") == 0 {
+		// hand-verified Unicode facts (NFC composition, non-ASCII space -> ASCII space under the
+		// OpaqueString profile): the account holds the normalised password, the caller types the raw one
+		pair := rapid.SampledFrom([][2]string{{"u\u0308ber", "\u00fcber"}, {"caf\u0065\u0301", "caf\u00e9"}, {"A\u030angstrom", "\u00c5ngstrom"}, {"pass\u00a0word", "pass word"}, {"pass\u3000word", "pass word"}, {"\u2126hm", "\u03a9hm"}, {"n\u0303", "\u00f1"}}).Draw(t, "pair")
+		c.ClientUser, c.User = "normuser", "normuser"
+		c.ClientPass, c.Pass = pair[0], pair[1]
+	}
 	if c.Mech == "XOAUTH2" {
 		// ^A is XOAUTH2's field separator, as NUL is PLAIN's: a token or user name containing it cannot
 		// be represented in the mechanism at all (outside the property's domain, like NUL)
@@ -277,6 +336,9 @@ func c14Gen(t *rapid.T) c14Case {
 	c.Ext = rapid.SampledFrom([]string{"", "", ",x=ext", ",foo=bar,baz=qux"}).Draw(t, "ext")
 	c.Challenge = "<" + rapid.StringMatching(`[0-9]{1,10}\.[0-9]{1,12}`).Draw(t, "chal") + "@" + rapid.SampledFrom([]string{"ref.verif.example", "postoffice.example.net", "h"}).Draw(t, "chalhost") + ">"
 	c.Retry = rapid.IntRange(0, 3).Draw(t, "retry") == 0
+	if strings.HasPrefix(c.Mech, "SCRAM") && rapid.IntRange(0, 4).Draw(t, "rotated") == 0 {
+		c.PrevPass = c.Pass + "-old"
+	}
 	if c.Retry && rapid.Bool().Draw(t, "othersalt") {
 		c.Salt2 = rapid.SliceOfN(rapid.Byte(), 1, 32).Draw(t, "salt2")
 	}
@@ -286,7 +348,7 @@ func c14Gen(t *rapid.T) c14Case {
 func TestC14(t *testing.T) {
 	rec := core.Rec("C14")
 	rec.Rule = "the real Client (DialWithContext, STARTTLS over in-memory connections where TLS is needed) authenticates against reference servers written from RFC 4616 (PLAIN), draft-murchison (LOGIN), RFC 2195 (CRAM-MD5), Google's XOAUTH2 format and RFC 5802/7677/9266 (SCRAM-SHA-1/-256 and the PLUS variants with tls-unique on TLS 1.2 and tls-exporter on TLS 1.3 taken from the server's own side of the very connection; own PBKDF2; validated on the RFC 5802/7677/6070 vectors). " +
-		"rapid draws account and client credentials from fragments {ASCII, ',' '=' '=2C' '=3D' blanks, quotes, backslash, 'n=' 'r=' 'p=', Unicode letters that are fixed points of SASLprep and PRECIS, TAB/0x01/DEL, empty}, wrong-credential twins (other password, other user, near misses), salts of 1..64 bytes, iteration counts 1..20000, server nonce suffixes, extensions after i=, CRAM challenges, TLS none/1.2/1.3, and a retry on the same smtp.Auth object (optionally against another salt with the same iteration count). " +
+		"rapid draws account and client credentials from fragments {ASCII, ',' '=' '=2C' '=3D' blanks, quotes, backslash, 'n=' 'r=' 'p=', Unicode letters that are fixed points of SASLprep and PRECIS, TAB/0x01/DEL, empty}, wrong-credential twins (other password, other user, near misses), salts of 1..64 bytes, iteration counts 1..20000, server nonce suffixes, extensions after i=, CRAM challenges, TLS none/1.2/1.3, a retry on the same smtp.Auth value for every mechanism (SCRAM optionally against another salt with the same iteration count), a preparatory exchange of the same user with a since-rotated password against the same salt, and hand-verified normalisation pairs (NFC composition, non-ASCII space) where the account holds the normalised password. " +
 		"Oracle: verifier accepts <=> credentials are the account's; right credentials => dial succeeds; wrong => error; no message the verifier finds malformed; SCRAM client nonces pairwise distinct and >= 18 characters; PLUS uses the binding type that fits the TLS version. A local refusal of PRECIS-forbidden strings (control characters, empty) by SCRAM is a permitted third outcome, counted separately and never non-trivial. " +
 		"Non-trivial: credentials with a non-alphanumeric character, iterations > 1, or a PLUS mechanism. Distinct by (mechanism, TLS, credentials, salt length, iterations, suffix, extensions, challenge, retry)."
 	rec.Assumptions = []string{"Unicode credentials are restricted to fixed points of SASLprep and PRECIS OpaqueString (no independent normaliser is available offline)", "NUL is not generated (outside the property's quantifier), nor is ^A for XOAUTH2 (its field separator)"}
